@@ -263,6 +263,60 @@ struct H {
     // "floats P F": every float bit pattern at one (precision, format), sharded
     static void enumerate(pbt::Ctx &ctx, unsigned shard, unsigned nshards, const std::string &what) {
         g_enumerating = true;
+        if (what.compare(0, 9, "big-ties-") == 0) {
+            // Integers from 2^53 up (doubles there are whole numbers) written as 16-23 decimal digits that end in 5 and 0 .. 21 zeros: the value
+            // itself - a decimal tie at one digit less - and its neighbours one and two ulps up and down, printed with that many digits
+            // in the Default format (and one digit more / less). The digits above the tie come from a fixed pseudo-random sequence.
+            const uint64_t total = strtoull(what.c_str() + 9, nullptr, 10) * 1000000ULL;
+            uint64_t       x     = 0x9E3779B97F4A7C15ULL * (shard + 1);
+            auto           next  = [&x]() {
+                x ^= x << 13;
+                x ^= x >> 7;
+                x ^= x << 17;
+                return x;
+            };
+            for (uint64_t n = 0; n < total; ++n) {
+                const unsigned D     = 16 + unsigned(next() % 8); // digits in all
+                const unsigned zeros = unsigned(next() % (D - 1)); // trailing zeros (the digits dropped behind the tie digit)
+                const unsigned L     = D - zeros;                  // digits up to and including the 5
+                char           t[40];
+                uint64_t       r = next();
+                t[0]             = char('1' + r % 9);
+                for (unsigned i = 1; i + 1 < L; ++i) {
+                    r    = next();
+                    t[i] = char('0' + r % 10);
+                }
+                t[L - 1] = '5';
+                for (unsigned i = 0; i < zeros; ++i) {
+                    t[L + i] = '0';
+                }
+                t[L + zeros]    = 0;
+                const double d0 = strtod(t, nullptr);
+                double       d  = d0;
+                switch (next() % 5) {
+                    case 1: d = std::nextafter(d0, INFINITY); break;
+                    case 2: d = std::nextafter(d0, 0.0); break;
+                    case 3: d = std::nextafter(std::nextafter(d0, INFINITY), INFINITY); break;
+                    case 4: d = std::nextafter(std::nextafter(d0, 0.0), 0.0); break;
+                    default: break;
+                }
+                Case c;
+                c.kind = 0;
+                memcpy(&c.bits, &d, 8);
+                if ((next() & 7) == 0) {
+                    c.bits |= 0x8000000000000000ULL;
+                }
+                const unsigned pk = unsigned(next() % 8);
+                c.precision       = (pk == 0) ? L : (pk == 1 && L > 2) ? L - 2 : L - 1;
+                c.format          = 0;
+                c.width           = 1;
+                c.cls             = "big-tie";
+                if (pbt::exec_case_fast<H>(ctx, c) == pbt::Status::Fail) {
+                    return;
+                }
+            }
+            return;
+        }
         if (what.compare(0, 7, "sparse-") == 0) {
             // every double whose significand has an odd part of at most N bits, in the binades below 1e-200 and above 1e200
             // (where the digit generation keeps only a few guard words), at every precision 0..40 in the Default format
